@@ -340,7 +340,14 @@ def _names_body(case, note):
     check(from_list.name == again_f.name, "head_content(<TagList>) is named differently from head_content(*items) of the same content", again_f.name, from_list.name)
     d2 = h.HTMLDocument(from_list, h.head_content(tl), again_f).render()["dependencies"]
     check(len(d2) == 2 and d2[0].head.get_html_string() == r_fresh, "a document with head_content of a list, of the list after it grew, and of the original content again does not hold exactly two head contents", [x.name for x in d2])
-    doc = h.HTMLDocument(h.Tag("div", hp, h.Tag("span", hq)), h.head_content(*[build(x) for x in p])).render()
+    inner = build(INVISIBLE["plus-dep"][0])
+    doc = h.HTMLDocument(h.Tag("div", hp, h.Tag("span", hq)), h.head_content(*[build(x) for x in p]), inner).render()
+    doc["dependencies"] = [d for d in doc["dependencies"] if d.name != "inner"]
+    check(doc["html"].count("https://cdn/i/i.js") == 1, "a dependency that is also carried inside a head_content payload is written more or less than once", doc["html"].count("https://cdn/i/i.js"))
+    head_html = doc["html"][doc["html"].index("<head>") : doc["html"].rindex("</head>")]
+    for rr in (rp, rq):
+        if rr and "\n" not in rr:
+            check(rr in head_html, "the rendering of a head_content payload is missing from the document's <head>", rr, head_html)
     heads = [d.head.get_html_string() for d in doc["dependencies"]]
     if rp == rq:
         check(heads == [rp], "equal head content is not included exactly once", heads)
